@@ -391,7 +391,7 @@ trees, where every capacity ≥ 1 is enough) -/
 example : (Net.run? (d10Net 6) (Net.init (d10Net 6))
     [1, 2, 3, 4, 0, 1, 3, 0, 1, 3, 1, 3, 1, 3, 1, 2, 3, 1, 2, 3, 2, 3, 2, 3, 2, 3, 2, 3, 2, 3, 2, 0, 2, 0, 4, 0, 1, 3, 4, 0, 1, 3,
      2, 3, 2, 3, 0, 2, 3, 0, 2, 3, 4, 0, 2, 3, 4, 0, 2, 0, 2, 4, 0, 2, 4, 0, 2, 0, 2, 4, 0, 2, 4, 0, 2, 0, 2, 4, 0, 4, 0, 0, 4, 0,
-     4, 0, 0, 4, 0, 4, 0, 0, 4, 0, 4, 0, 0, 4, 4, 4, 4, 4, 4, 4, 4, 4, 4]).map
+     4, 0, 0, 4, 0, 4, 0, 0, 4, 0, 4, 0, 0, 4, 4, 4, 4, 4, 4, 4, 4, 4, 4, 4]).map
     (fun s => (s.terminal (d10Net 6), s.allEnded, s.outcome)) = some (true, true, some .returned) := by
   decide +kernel
 
@@ -415,15 +415,15 @@ Threads: 0 build:tt, 1 divide_outputs:xx, 2 the divider, 3 build:ss, 4 save_0:yy
 theorem divider_close_loop_old_counterexample :
     (Net.run? (d28Net false) (Net.init (d28Net false))
       [0, 1, 2, 4, 3, 1, 1, 1, 2, 2, 0, 0, 0, 2, 2, 2, 4, 4, 4, 3, 1, 1, 2, 2, 2, 0, 0, 2, 5, 5, 6, 6, 6, 6, 6, 6, 6, 6, 6,
-       6, 6, 6, 6]).map (fun s => (s.terminal (d28Net false), s.allEnded, s.outcome)) = some (true, false, none) := by
+       6, 6, 6, 6, 6]).map (fun s => (s.terminal (d28Net false), s.allEnded, s.outcome)) = some (true, false, none) := by
   decide +kernel
 
 /-- with the handler around the closing loop (the code today) the same schedule prefix ends with every thread finished
 and the consumer raising the saver's exception 7 -/
 example : ∃ sched, (Net.run? (d28Net true) (Net.init (d28Net true)) sched).map
     (fun s => (s.terminal (d28Net true), s.allEnded, s.outcome)) = some (true, true, some (.raised (.inj 7))) :=
-  ⟨[0, 1, 2, 4, 3, 1, 1, 1, 2, 2, 0, 0, 0, 2, 2, 2, 4, 4, 4, 3, 1, 1, 2, 2, 0, 0, 2, 2, 2, 2, 5, 6, 6, 6, 6, 6, 6, 6, 6,
-    6, 6, 6, 6, 6, 6, 6], by decide +kernel⟩
+  ⟨[0, 1, 2, 4, 3, 1, 1, 1, 2, 2, 0, 0, 0, 2, 2, 2, 4, 4, 4, 3, 1, 1, 2, 2, 2, 0, 0, 2, 5, 5, 6, 6, 6, 6, 6, 6, 6, 6, 6,
+    6, 6, 2, 2, 2, 5, 6, 6, 6, 6, 6], by decide +kernel⟩
 
 /-! ### tree-shaped nets: no deadlock, with or without failures -/
 
@@ -551,13 +551,14 @@ example : Net.SinksListed exTreeNet (Net.certOf exTreeNet) := by decide +kernel
 thread finished and the consumer raising its own exception 5 (threads: 0 build:tt, 1 save_0:tt, 2 build:mm, 3 save_0:mm,
 4 build:ss, 5 main) -/
 example : (Net.run? exChainNet (Net.init exChainNet)
-    [1, 3, 5, 0, 0, 2, 2, 4, 4, 2, 2, 3, 0, 3, 0, 1, 5, 1, 5, 5, 0, 1, 5, 0, 1, 2, 3, 5, 0, 2, 3, 4, 5, 2, 4, 5, 4, 5, 5, 5, 5]).map
+    [1, 3, 5, 0, 0, 2, 2, 4, 4, 2, 2, 3, 0, 3, 0, 1, 5, 1, 5, 5, 0, 1, 5, 0, 1, 2, 5, 0, 2, 3, 4, 5, 2, 4, 4, 0, 2, 3, 5, 5, 5, 5,
+     5, 5]).map
     (fun s => (s.terminal exChainNet, s.allEnded, s.outcome)) = some (true, true, some (.raised (.inj 5))) := by
   decide +kernel
 
 /-- the tree whose source `sa` fails at its second chunk: the consumer raises exception 3 -/
 example : (Net.run? exTreeNet (Net.init exTreeNet)
-    [1, 2, 3, 4, 5, 0, 2, 3, 4, 0, 2, 3, 4, 0, 0, 1, 5, 0, 1, 5, 0, 1, 5, 1, 5, 5, 5, 5, 5, 5, 5, 5, 5]).map
+    [1, 2, 3, 4, 5, 0, 2, 3, 4, 0, 2, 3, 4, 0, 0, 1, 5, 0, 1, 5, 0, 1, 5, 1, 5, 5, 5, 5, 5, 5, 5, 5, 5, 5]).map
     (fun s => (s.terminal exTreeNet, s.allEnded, s.outcome)) = some (true, true, some (.raised (.inj 3))) := by
   decide +kernel
 
@@ -570,7 +571,7 @@ example : Net.TreeNet exCleanNet (Net.certOf exCleanNet) ∧ Net.SinksListed exC
 
 example : (Net.run? exCleanNet (Net.init exCleanNet)
     [1, 3, 5, 0, 0, 2, 2, 4, 4, 2, 2, 3, 0, 3, 0, 1, 5, 1, 5, 0, 0, 2, 2, 4, 4, 2, 2, 3, 0, 3, 0, 1, 5, 1, 5, 0, 0, 2, 2, 4, 4, 2,
-     2, 3, 0, 0, 1, 5, 5, 5, 5, 5, 5, 5, 5, 5, 5]).map
+     2, 3, 0, 0, 1, 5, 5, 5, 5, 5, 5, 5, 5, 5, 5, 5]).map
     (fun s => (s.terminal exCleanNet, s.allEnded, s.outcome)) = some (true, true, some .returned) := by
   decide +kernel
 
